@@ -15,7 +15,7 @@ Theorem C07_gen_source_is_model :
      gen_randomizedPartition Op arr b e ds = let '(r, ds') := randint b e ds in (rand_partition Op arr b e r, ds')) /\
   (forall {T} (Op : numops T) fuel arr b e i ds,
      gen_randomizedSelect Op fuel arr b e i ds = rand_select Op fuel arr b e i ds) /\
-  (forall {T} (Op : numops T) inds k ds,
+  (forall {T} (Op : numops T) inds k ds, values_same_length inds ->
      gen_selSPEA2 Op inds k ds = spea2 Op (map fst inds) (map snd inds) k ds) /\
   (forall {T} (Op : numops T) nobj p sc, 1 <= nobj ->
      gen_uniform_reference_points Op (Z.of_nat nobj) (Z.of_nat p) sc = ref_points Op nobj p sc).
@@ -57,11 +57,13 @@ Proof. exact gen_rand_select_is_kth. Qed.
 Print Assumptions C07_gen_rand_select_is_kth.
 
 (* C07_spea2_generic on the regenerated selSPEA2 (an individual is the pair (fitness.values, fitness.wvalues), the result is
-   the list of chosen indices): exactly k distinct input individuals; all non-dominated ones when there are at most k,
+   the list of chosen indices; values_same_length: all individuals have the same number of fitness values):
+   exactly k distinct input individuals; all non-dominated ones when there are at most k,
    only non-dominated ones when there are at least k; for every numeric instance with asymmetric <, all draws *)
 Theorem C07_gen_spea2_generic : forall {T} (Op : numops T),
   (forall x y, n_ltb Op x y = true -> n_ltb Op y x = false) ->
-  forall (inds : list (list T * list T)) k draws, dist_ok Op (map fst inds) -> 1 <= k <= length inds ->
+  forall (inds : list (list T * list T)) k draws, values_same_length inds -> dist_ok Op (map fst inds) ->
+  1 <= k <= length inds ->
   let wvals := map snd inds in
   let r := fst (gen_selSPEA2 Op inds k draws) in
   length r = k /\ NoDup r /\ (forall i, In i r -> i < length inds) /\
@@ -72,6 +74,7 @@ Print Assumptions C07_gen_spea2_generic.
 
 (* C07_spea2_size_refs / _all_nd_when_few / _only_nd_when_many on the regenerated selSPEA2: exact instance, finite values *)
 Theorem C07_gen_spea2_exact : forall (vq : list (list Q)) (wvals : list (list qx)) k draws,
+  (forall a b, In a vq -> In b vq -> length a = length b) ->
   length vq = length wvals -> 1 <= k <= length wvals ->
   let r := fst (gen_selSPEA2 qx_ops (combine (map (map QF) vq) wvals) k draws) in
   length r = k /\ NoDup r /\ (forall i, In i r -> i < length wvals) /\
